@@ -15,12 +15,14 @@ Variable w : world.
 Variable content : cid -> body.                      (* the genuine body of a block *)
 Hypothesis Hhash : forall c, hashes_to (content c) c = true.
 Hypothesis Hlinks : forall c, links_of (content c) = dag_get (w_dag w) c.
+Variable verifiable : cid -> bool.                   (* the hash function a CID names is available *)
+Hypothesis Hver : forall c, verifiable c = true.
 
 Notation bget := (bget body).
 Notation local_ok := (local_ok body hashes_to links_of).
 Notation fetch_block := (fetch_block body hashes_to links_of).
-Notation fwalk := (fwalk body hashes_to links_of).
-Notation fwalk_kids := (fwalk_kids body hashes_to links_of).
+Notation fwalk := (fwalk body hashes_to links_of verifiable).
+Notation fwalk_kids := (fwalk_kids body hashes_to links_of verifiable).
 
 (* what an honest publisher answers when asked for c *)
 Definition genuine (c : cid) : option body :=
@@ -113,7 +115,7 @@ Theorem honest_fwalk_is_walk_proved resp v stop : forall fuel lim c reqs s,
 Proof.
   induction fuel as [|f IH]; intros lim c reqs s W o Hh.
   - cbn in *. rewrite app_nil_r. split; [reflexivity|exact W].
-  - subst o. rewrite fwalk_unfold. rewrite walk_unfold in *.
+  - subst o. rewrite fwalk_unfold, Hver. cbn [negb]. rewrite walk_unfold in *.
     assert (Hreq : memb c s = false -> load w c s <> None \/ True -> resp (length reqs) = genuine c).
     { intros M _. destruct (load w c s) as [[es req]|] eqn:L.
       - assert (req = true).
@@ -205,9 +207,9 @@ Qed.
 
 (* ---- handler.handle ---- *)
 
-Notation fhandle_plain := (fhandle_plain body hashes_to links_of).
-Notation fseg_loop := (fseg_loop body hashes_to links_of).
-Notation fhandle := (fhandle body hashes_to links_of).
+Notation fhandle_plain := (fhandle_plain body hashes_to links_of verifiable).
+Notation fseg_loop := (fseg_loop body hashes_to links_of verifiable).
+Notation fhandle := (fhandle body hashes_to links_of verifiable).
 
 Lemma honest_handle_plain resp v stop lim h c s :
   store_wf s = true ->
@@ -307,23 +309,24 @@ End Honest.
 
 Theorem honest_sync_meets_c01_spec_proved :
   forall (body : Type) (hashes_to : body -> cid -> bool) (links_of : body -> option (list edge))
-         (content : cid -> body) k extra ch pub head stop lim segdl s resp,
+         (content : cid -> body) (verifiable : cid -> bool) k extra ch pub head stop lim segdl s resp,
     let w := chain_world k extra ch pub in
     (forall c, hashes_to (content c) c = true) ->
     (forall c, links_of (content c) = dag_get (w_dag w) c) ->
+    (forall c, verifiable c = true) ->
     chain_wf k extra ch = true -> In head ch -> is_stop stop head = false ->
     store_wf w s = true ->
     let seg := segment ch head stop lim in
     avail pub s seg = true ->
     honest_on body w content resp (missing s seg) ->
-    fhandle body hashes_to links_of (walk_fuel w) resp (FSYNC (kind_view k) stop lim segdl HNominate head)
+    fhandle body hashes_to links_of verifiable (walk_fuel w) resp (FSYNC (kind_view k) stop lim segdl HNominate head)
             (attach body content s) =
     FHO body seg (missing s seg) (attach body content (rev (missing s seg) ++ s)) (length seg) None.
 Proof.
-  intros body hashes_to links_of content k extra ch pub head stop lim segdl s resp w Hh Hl Hwf Hin Hs W seg Hav Hon.
+  intros body hashes_to links_of content verifiable k extra ch pub head stop lim segdl s resp w Hh Hl Hv Hwf Hin Hs W seg Hav Hon.
   pose proof (handle_segment k extra ch pub Hwf head stop lim s segdl Hin Hs Hav) as H1. cbv zeta in H1.
   unfold w in *. clear w. unfold seg in *. clear seg.
-  rewrite (honest_fhandle_is_handle_proved body hashes_to links_of (chain_world k extra ch pub) content Hh Hl resp
+  rewrite (honest_fhandle_is_handle_proved body hashes_to links_of (chain_world k extra ch pub) content Hh Hl verifiable Hv resp
              (FSYNC (kind_view k) stop lim segdl HNominate head) s W).
   - cbn [fs_view fs_stop fs_lim fs_segdl fs_hook fs_head]. rewrite H1. reflexivity.
   - cbn [fs_view fs_stop fs_lim fs_segdl fs_hook fs_head]. rewrite H1. exact Hon.
